@@ -437,6 +437,39 @@ func c13Inputs(c *fw.Ctx, i int, s *srv.Server, bgName string) []c13Input {
 			for _, b := range [][]byte{{}, {0}, {0, 0}, {0, 0, 1}, {0, 0, 1, 0xe0}, {1, 2, 3}} {
 				ps = append(ps, b)
 			}
+			// after a valid pack header + system header + PSM (so that the elementary streams are
+			// known): PES packets whose length fields contradict each other or the data
+			prefix := append(ref.PsPackHeader(2000), ref.PsSystemHeader(true, true)...)
+			prefix = append(prefix, ref.PsMap(0x1b, 0x0f)...)
+			for _, sid := range []byte{0xE0, 0xC0, 0xBD} {
+				for _, plen := range []int{0, 1, 2, 3, 4, 8, 13, 100, 0xffff} {
+					for _, phdl := range []int{0, 1, 5, 10, 200, 255} {
+						for _, flags := range []byte{0x00, 0x80, 0xc0, 0x40} {
+							for _, have := range []int{0, 1, 3, 5, 12, 40} {
+								if r.Intn(4) != 0 {
+									continue
+								}
+								b := append([]byte(nil), prefix...)
+								b = append(b, 0, 0, 1, sid, byte(plen>>8), byte(plen), 0x80, flags, byte(phdl))
+								b = append(b, rb(have)...)
+								ps = append(ps, b)
+								// and followed by a well-formed PES, so that parsing goes on after it
+								ps = append(ps, append(b, ref.PsPes(sid, 3000, 3000, false, append([]byte{0, 0, 0, 1, 0x65}, rb(20)...), 65000)...))
+							}
+						}
+					}
+				}
+			}
+			// program stream maps with inconsistent lengths
+			for _, l := range []int{0, 1, 4, 6, 9, 10, 0xffff} {
+				for _, il := range []int{0, 1, 0xffff} {
+					for _, el := range []int{0, 3, 4, 5, 0xffff} {
+						b := append([]byte(nil), ref.PsPackHeader(2000)...)
+						b = append(b, 0, 0, 1, 0xBC, byte(l>>8), byte(l), 0xe0, 0xff, byte(il>>8), byte(il), byte(el>>8), byte(el), 0x1b, 0xe0, 0, 0, 0x0f, 0xc0, 0, 0, 1, 2, 3, 4)
+						ps = append(ps, b[:len(b)-r.Intn(8)])
+					}
+				}
+			}
 			list := ps
 			out = append(out, c13Input{Class: fmt.Sprintf("gb28181/ps/tcp=%v", tcp), Desc: fmt.Sprintf("%d hostile PS bodies over RTP", len(list)), Run: func(s *srv.Server) error {
 				port := srv.FreeUdpPort()
